@@ -26,6 +26,8 @@ PID = "X08"
 
 # the deviations of spec/CfgMap.tla (AllDevs), in the order used to attribute a row
 DEVS = ["DataSizeOverflow", "DataSizeZeroAnyUnit", "FloatIgnoresBlock", "DurationJoin"]
+# the deviations of spec/CfgMapLoad.tla
+LOAD_DEVS = ["SubmissionTimeoutDefault", "TableInstanceName"]
 
 MC_CFG = """SPECIFICATION Spec
 CONSTANTS
@@ -70,23 +72,149 @@ def nontrivial(row):
     return bool(row["in"]["nodes"]) or bool(row["in"]["gnodes"])
 
 
+def build_loader(ctx):
+    """go test -c harness/cfgmapcheck/loader.  The package imports the root package of maddy (ReadGlobals,
+    RegisterModules, Run), whose dependencies are not all listed in harness/go.mod; under -mod=mod go adds them,
+    so the build always works on a private copy of go.mod / go.sum (the shared files are never written)."""
+    import shutil
+    import subprocess
+    import time
+    out = os.path.join(ctx.work, "cfgmapcheck_loader.test")
+    mf = os.path.join(ctx.work, "loader.mod")
+    txt = open(os.path.join(vlib.HARNESS, "go.mod")).read().replace("=> /repo", "=> " + ctx.repo)
+    open(mf, "w").write(txt)
+    shutil.copy(os.path.join(ctx.repo, "go.sum"), os.path.join(ctx.work, "loader.sum"))
+    t0 = time.time()
+    p = subprocess.run(["go1.26", "test", "-c", "-tags", "verif", "-modfile", mf, "-o", out, "./cfgmapcheck/loader"],
+                       cwd=vlib.HARNESS, env=vlib.goenv(), stdout=subprocess.PIPE, stderr=subprocess.STDOUT, text=True)
+    if p.returncode != 0 or not os.path.exists(out):
+        raise vlib.Infra("harness build failed (cfgmapcheck/loader):\n%s" % p.stdout[-4000:])
+    ctx.log("built harness cfgmapcheck/loader in %.1fs" % (time.time() - t0))
+    return out
+
+
+REG_CFG = """SPECIFICATION Spec
+CONSTANTS
+  MaxBlocks = %(maxblocks)d
+  MaxUses = %(maxuses)d
+  Gen = TRUE
+INVARIANTS RuleSatisfiesProp
+CONSTRAINT Emit
+CHECK_DEADLOCK FALSE
+"""
+
+REG_TRACE_CFG = """SPECIFICATION TSpec
+CONSTANTS
+  MaxBlocks = 1
+  MaxUses = 1
+  Gen = FALSE
+CHECK_DEADLOCK FALSE
+POSTCONDITION Post
+"""
+
+REG_OUT_KEYS = ("panic", "err", "objs", "uses", "order")
+
+
+def project_reg(e):
+    o = e["out"]
+    return {"t": e["t"], "seq": e["seq"], "e": "Row", "in": e["in"], "out": {k: o[k] for k in REG_OUT_KEYS}}
+
+
+def run_registry(ctx, replay_row, binary):
+    """layer "r": instances and references (spec/CfgMapReg.tla).  Returns (rows, events, verdicts, accepted)."""
+    thorough = ctx.tier == "thorough"
+    if replay_row is not None:
+        rows = [replay_row]
+        rows[0]["id"] = 1
+    else:
+        r = ctx.tlc_expect_ok("CfgMapReg", None, name="reg-mc", workers=8, timeout=2400,
+                              cfg_text=REG_CFG % dict(maxblocks=2, maxuses=3 if thorough else 2))
+        rows = vtable.rows_from(r)
+        if len(rows) != r["distinct"]:
+            raise vlib.Infra("CfgMapReg: TLC printed %d distinct rows for %d states" % (len(rows), r["distinct"]))
+        ctx.cov["reg_states"] = r["distinct"]
+        ctx.cov["reg_transitions"] = r["generated"]
+        ctx.log("TLC: %d configurations of blocks and references; refused iff a documented defect, accepted as "
+                "documented, on the rule, %.1fs" % (r["distinct"], r["wall"]))
+    items = [{"id": row["id"], "in": row["in"], "text": row["text"]} for row in rows]
+    events = [e for e in ctx.run_shards(binary, items, timeout=1500, name="reg-replay") if e["e"] == "Row"]
+    if len(events) != len(items):
+        raise vlib.Infra("loader harness answered %d of %d rows" % (len(events), len(items)))
+    ctx.log("real loader answered %d configurations" % len(events))
+    selftest = {}
+    if replay_row is None:
+        def forge(t, pred, chg):
+            for row in rows:
+                if pred(row):
+                    f = {"t": t, "seq": 2, "e": "Row", "in": row["in"], "out": json.loads(json.dumps(row["exp"]))}
+                    chg(f["out"], row)
+                    return f
+            return None
+        okrow = lambda row: not row["exp"]["err"]["is"]
+
+        def accept_anyway(o, row):
+            o["err"] = {"is": False, "stage": "none", "line": 0, "mentions": []}
+        forged = [
+            (910001, "duplicate block name accepted",
+             forge(910001, lambda row: row["exp"]["err"]["stage"] == "register" and len(row["in"]["blocks"]) == 2
+                   and row["in"]["blocks"][0]["names"][0] == row["in"]["blocks"][1]["names"][0], accept_anyway)),
+            (910002, "undefined reference accepted",
+             forge(910002, lambda row: row["exp"]["err"]["stage"] == "init" and row["exp"]["err"]["mentions"] == ["Zz"],
+                   accept_anyway)),
+            (910003, "unused block accepted", forge(910003, lambda row: row["exp"]["err"]["stage"] == "unused", accept_anyway)),
+            (910004, "reference resolved to another block",
+             forge(910004, lambda row: okrow(row) and len(row["exp"]["objs"]) >= 2 and row["in"]["uses"]
+                   and row["in"]["uses"][0]["form"] == "ref",
+                   lambda o, row: o["uses"].__setitem__(0, 1 if o["uses"][0] != 1 else 2))),
+            (910005, "inline definitions share one instance",
+             forge(910005, lambda row: okrow(row) and len(row["in"]["uses"]) == 2
+                   and all(u["form"] == "inline" for u in row["in"]["uses"]),
+                   lambda o, row: o["uses"].__setitem__(1, o["uses"][0]))),
+            (910006, "instance initialised twice",
+             forge(910006, lambda row: okrow(row) and row["exp"]["objs"],
+                   lambda o, row: o["objs"][0].__setitem__("inits", 2))),
+            (910007, "global hostname not inherited",
+             forge(910007, lambda row: okrow(row) and row["in"]["host"] and row["exp"]["objs"]
+                   and row["exp"]["objs"][0]["hostname"] == row["in"]["host"],
+                   lambda o, row: o["objs"][0].__setitem__("hostname", ""))),
+        ]
+        for t, what, f in forged:
+            if f is None:
+                raise vlib.Infra("binding self-test (registry): no base row for '%s'" % what)
+            selftest[t] = what
+            events = events + [f]
+    verdicts, accepted = vtable.validate_rows(ctx, "CfgMapRegTrace", REG_TRACE_CFG, [project_reg(e) for e in events],
+                                              name="CfgMapRegTrace", batch=3000, par=8, timeout=1800)
+    for t, what in selftest.items():
+        v = verdicts.get(t)
+        if not v or not v["viol"]:
+            raise vlib.Infra("binding self-test failed: forged configuration outcome (%s) was accepted" % what)
+        del verdicts[t]
+    if selftest:
+        ctx.cov["binding_selftest_registry"] = "forged outcomes rejected: " + "; ".join(selftest.values())
+    ctx.log("TLC evaluated %d recorded configurations: %d accepted as conforming" % (len(events), accepted))
+    return rows, [e for e in events if e["t"] < 900000], verdicts, accepted
+
+
 def project(e):
     o = e["out"]
     return {"t": e["t"], "seq": e["seq"], "e": "Row", "in": e["in"], "out": {k: o[k] for k in OUT_KEYS}}
 
 
-def run(ctx, replay):
+def run_map(ctx, replay):
+    """layer "m": config.Map (spec/CfgMap.tla); replay: a stored replay object or None"""
     thorough = ctx.tier == "thorough"
     entries = ext_findings()
     for e in entries:
-        if e["match"]["deviation"] not in DEVS:
+        if e["match"]["deviation"] not in DEVS + LOAD_DEVS:
             raise vlib.Infra("finding %s names an unknown deviation %s" % (e["id"], e["match"]["deviation"]))
-    open_by_dev = {e["match"]["deviation"]: e for e in entries if e.get("status", "open") == "open"}
+    open_by_dev = {e["match"]["deviation"]: e for e in entries
+                   if e.get("status", "open") == "open" and e["match"]["deviation"] in DEVS}
     ext_seen = []        # (finding id, what)
 
     # ---- (T) + rows ---------------------------------------------------------
     if replay:
-        obj = json.load(open(replay))
+        obj = replay
         rows = [obj["row"]]
         rows[0]["id"] = 1
     else:
@@ -200,7 +328,8 @@ def run(ctx, replay):
                 raise vlib.Infra("as-is model (%s) does not violate the property: predicates vacuous? (%s)" % (
                     dev, ra["error"]))
         asis_pool.shutdown()
-        ctx.cov["asis_counterexample_found"] = list(DEVS)
+        ctx.cov.setdefault("asis_counterexample_found", [])
+        ctx.cov["asis_counterexample_found"] += list(DEVS)
     if replay:
         ev = events[0]
         v = verdicts.get(ev["t"])
@@ -242,7 +371,7 @@ def run(ctx, replay):
                 json.dumps(outs), json.dumps(row.get("exp")))
             if len(what) > 1200:
                 what = what[:1200] + " ..."
-            ctx.violation(what, {"property": PID, "row": row, "out": ev["out"], "violated": sorted(v["viol"]),
+            ctx.violation(what, {"property": PID, "layer": "m", "row": row, "out": ev["out"], "violated": sorted(v["viol"]),
                                  "how": "bin/check X08 --replay <this file>"})
         elif explained:
             # exactly the behaviour of the named deviation(s) of open findings
@@ -264,12 +393,13 @@ def run(ctx, replay):
             if drift <= 10:
                 print(("DRIFT ext=X08 row=%d out=%s expected=%s text=%s" % (
                     t, json.dumps(outs), json.dumps(row.get("exp")), json.dumps(row["text"])))[:1500])
-    ctx.cov["traces_validated_against_impl"] = accepted
-    ctx.cov["drift_traces"] = drift
-    ctx.cov["ext_finding_rows"] = finding_rows
-    ctx.cov["ext_findings_seen"] = [fid for fid, _ in ext_seen]
-    ctx.cov["evaluations"] = len(sel)
-    ctx.cov["distinct_nontrivial"] = sum(1 for row in sel if nontrivial(row))
+    ctx.cov["traces_validated_against_impl"] = ctx.cov.get("traces_validated_against_impl", 0) + accepted
+    ctx.cov["drift_traces"] = ctx.cov.get("drift_traces", 0) + drift
+    ctx.cov.setdefault("ext_finding_rows", {}).update(finding_rows)
+    ctx.cov.setdefault("ext_findings_seen", [])
+    ctx.cov["ext_findings_seen"] += [fid for fid, _ in ext_seen]
+    ctx.cov["evaluations"] = ctx.cov.get("evaluations", 0) + len(sel)
+    ctx.cov["distinct_nontrivial"] = ctx.cov.get("distinct_nontrivial", 0) + sum(1 for row in sel if nontrivial(row))
     tabs = sorted({row["in"]["tab"] for row in sel})
     ctx.cov["rows_by_table"] = {tab: sum(1 for row in sel if row["in"]["tab"] == tab) for tab in tabs}
     ctx.cov["rows_with_error"] = sum(1 for row in sel if row.get("exp", {}).get("err", {}).get("is"))
@@ -282,7 +412,7 @@ def run(ctx, replay):
                        "RandN mixed rows drawn from Seed = VERIF_SEED; every row goes through the real code in both tiers "
                        "(quick MaxNodes=2, RandN=2500; thorough MaxNodes=3, RandN=20000); non-trivial = some directive is "
                        "written")
-    ctx.cov["violated_predicates"] = preds
+    ctx.cov.setdefault("violated_predicates", {}).update(preds)
     ctx.cov["exhaustive"] = True
     picks = []
     for tab in tabs:
@@ -305,15 +435,283 @@ def run(ctx, replay):
         print("EXT-FINDING: ext=%s %s %s" % (PID, fid, what))
 
 
+LOAD_CFG = """SPECIFICATION Spec
+CONSTANTS
+  Devs = {%(devs)s}
+  Gen = %(gen)s
+INVARIANTS %(inv)s
+%(emit)s
+CHECK_DEADLOCK FALSE
+"""
+
+LOAD_TRACE_CFG = """SPECIFICATION TSpec
+CONSTANTS
+  Devs = {}
+  Gen = FALSE
+  OpenDevs = {%(open)s}
+CHECK_DEADLOCK FALSE
+POSTCONDITION Post
+"""
+
+LOAD_OUT_KEYS = ("crashed", "err", "smtp", "dkim", "static")
+
+
+def project_load(e):
+    o = e["out"]
+    return {"t": e["t"], "seq": e["seq"], "e": "Row", "in": e["in"], "out": {k: o[k] for k in LOAD_OUT_KEYS}}
+
+
+def loader_verdicts(ctx, replay, binary):
+    """layer "l": maddy's own entry point on real module blocks (spec/CfgMapLoad.tla), one child process per row"""
+    entries = ext_findings()
+    open_by_dev = {e["match"]["deviation"]: e for e in entries
+                   if e.get("status", "open") == "open" and e["match"]["deviation"] in LOAD_DEVS}
+    if replay:
+        rows = [replay["row"]]
+        rows[0]["id"] = 1
+    else:
+        r = ctx.tlc_expect_ok("CfgMapLoad", None, name="load-mc", workers=2, timeout=900,
+                              cfg_text=LOAD_CFG % dict(devs="", gen="TRUE", inv="RuleSatisfiesProp", emit="CONSTRAINT Emit"))
+        rows = vtable.rows_from(r)
+        if len(rows) != r["distinct"]:
+            raise vlib.Infra("CfgMapLoad: TLC printed %d distinct rows for %d states" % (len(rows), r["distinct"]))
+        ctx.cov["load_states"] = r["distinct"]
+        ctx.cov["load_transitions"] = r["generated"]
+        for dev in LOAD_DEVS:
+            ra = ctx.tlc("CfgMapLoad", None, name="load-asis-" + dev, workers=1, timeout=600,
+                         cfg_text=LOAD_CFG % dict(devs=q([dev]), gen="FALSE", inv="AsIsDiffers", emit=""))
+            if ra["invariant"] != "AsIsDiffers":
+                raise vlib.Infra("as-is loader model (%s) does not differ from the documented one (%s)" % (dev, ra["error"]))
+        ctx.cov.setdefault("asis_counterexample_found", [])
+        ctx.cov["asis_counterexample_found"] += LOAD_DEVS
+        ctx.log("TLC: %d maddy.conf rows (real module blocks); the documented outcome satisfies the property, %.1fs" % (
+            r["distinct"], r["wall"]))
+    by_id = {row["id"]: row for row in rows}
+    items = [{"id": row["id"], "in": row["in"], "text": row["text"], "keys": row.get("keys", [])} for row in rows]
+    events = [e for e in ctx.run_shards(binary, items, timeout=1500, name="load-replay") if e["e"] == "Row"]
+    if len(events) != len(items):
+        raise vlib.Infra("loader harness answered %d of %d maddy.conf rows" % (len(events), len(items)))
+    ctx.log("maddy started on %d configurations (one child process each)" % len(events))
+    ev_by_t = {e["t"]: e for e in events}
+    selftest = {}
+    if not replay:
+        def forge(t, pred, chg):
+            for row in rows:
+                if pred(row):
+                    x = row["exp"]
+                    o = {"crashed": False,
+                         "err": {"is": x["err"]["is"], "line": (sorted(x["err"]["lines"]) or [0])[-1], "mentions": list(x["err"]["names"])},
+                         "smtp": dict(x["smtp"]), "dkim": dict(x["dkim"]), "static": [list(p) for p in x["static"]]}
+                    chg(o, row)
+                    return {"t": t, "seq": 2, "e": "Row", "in": row["in"], "out": o}
+            return None
+        okrow = lambda row: not row["exp"]["err"]["is"]
+        forged = [
+            (920001, "unknown directive in a real block accepted",
+             forge(920001, lambda row: row["in"]["defect"] == "smtp_unknown",
+                   lambda o, row: o.__setitem__("err", {"is": False, "line": 0, "mentions": []}))),
+            (920002, "documented default replaced",
+             forge(920002, lambda row: okrow(row) and row["in"]["tab"] == "smtp" and not row["in"]["smtp"],
+                   lambda o, row: o["smtp"].__setitem__("connect_timeout", "1000"))),
+            (920003, "global debug not inherited",
+             forge(920003, lambda row: okrow(row) and row["in"]["tab"] == "dkim" and row["in"]["debug"] == "yes"
+                   and not row["in"]["dkim"], lambda o, row: o["dkim"].__setitem__("debug", "false"))),
+            (920004, "valid configuration refused",
+             forge(920004, lambda row: okrow(row) and row["in"]["tab"] == "smtp",
+                   lambda o, row: o.__setitem__("err", {"is": True, "line": 1, "mentions": []}))),
+        ]
+        for t, what, f in forged:
+            if f is None:
+                raise vlib.Infra("binding self-test (loader): no base row for '%s'" % what)
+            selftest[t] = what
+            events = events + [f]
+    verdicts, accepted = vtable.validate_rows(ctx, "CfgMapLoadTrace", LOAD_TRACE_CFG % dict(open=q(open_by_dev)),
+                                              [project_load(e) for e in events], name="CfgMapLoadTrace", batch=4000, par=2,
+                                              timeout=900)
+    for t, what in selftest.items():
+        v = verdicts.get(t)
+        if not v or not v["viol"] or v["devs"]:
+            raise vlib.Infra("binding self-test failed: forged loader outcome (%s) was accepted or explained" % what)
+        del verdicts[t]
+    if selftest:
+        ctx.cov["binding_selftest_loader"] = "forged outcomes rejected: " + "; ".join(selftest.values())
+    ctx.log("TLC evaluated %d recorded maddy starts: %d accepted as conforming" % (len(events), accepted))
+    if replay:
+        ev = events[0]
+        v = verdicts.get(ev["t"])
+        print("REPLAY ext=X08 maddy.conf (%%T = scratch directory):\n%s" % rows[0].get("text", ""))
+        print("REPLAY ext=X08 maddy: %s" % json.dumps({k: ev["out"].get(k) for k in LOAD_OUT_KEYS + ("msg", "code")}))
+        print("REPLAY ext=X08 documented: %s" % json.dumps(rows[0].get("exp")))
+        print("REPLAY ext=X08 verdict of TLC: %s" % (
+            "violated=%s differs=%s explained-by-deviations=%s" % (sorted(v["viol"]), v["drift"], v["devs"]) if v
+            else "accepted as conforming"))
+    drift, preds, finding_rows, ext_seen = 0, {}, {}, []
+    for t, v in sorted(verdicts.items()):
+        row, ev = by_id[t], ev_by_t[t]
+        outs = {k: ev["out"][k] for k in LOAD_OUT_KEYS}
+        outs["msg"] = ev["out"].get("msg", "")
+        devsets = sorted((sorted(d, key=LOAD_DEVS.index) for d in v["devs"]),
+                         key=lambda d: (len(d), [LOAD_DEVS.index(x) for x in d]))
+        minimal = devsets[0] if devsets else None
+        explained = minimal is not None and all(d in open_by_dev for d in minimal)
+        if explained and v["viol"]:
+            allowed = set()
+            for d in minimal:
+                allowed |= set(open_by_dev[d]["match"].get("predicates", []))
+            explained = set(v["viol"]) <= allowed
+        if v["viol"] and not explained:
+            for p in v["viol"]:
+                preds[p] = preds.get(p, 0) + 1
+            what = ("maddy violates %s on a documented configuration: text=%s out=%s documented=%s" % (
+                ",".join(sorted(v["viol"])), json.dumps(row["text"]), json.dumps(outs), json.dumps(row.get("exp"))))[:1500]
+            ctx.violation(what, {"property": PID, "layer": "l", "row": row, "out": ev["out"], "violated": sorted(v["viol"]),
+                                 "how": "bin/check X08 --replay <this file>"})
+        elif explained:
+            for d in minimal:
+                e = open_by_dev[d]
+                if (e["id"], e["what"]) not in ext_seen:
+                    ext_seen.append((e["id"], e["what"]))
+                k = finding_rows.setdefault(e["id"], {"rows": 0, "violating_rows": 0, "predicates": {}, "example": None})
+                k["rows"] += 1
+                if v["viol"]:
+                    k["violating_rows"] += 1
+                    for p in v["viol"]:
+                        k["predicates"][p] = k["predicates"].get(p, 0) + 1
+                    if k["example"] is None:
+                        k["example"] = {"text": row["text"], "out": outs, "documented": row["exp"], "violated": sorted(v["viol"])}
+        else:
+            drift += 1
+            if drift <= 10:
+                print(("DRIFT ext=X08 layer=l row=%d out=%s expected=%s text=%s" % (
+                    t, json.dumps(outs), json.dumps(row.get("exp")), json.dumps(row["text"])))[:1500])
+    ctx.cov["traces_validated_against_impl"] = ctx.cov.get("traces_validated_against_impl", 0) + accepted
+    ctx.cov["drift_traces"] = ctx.cov.get("drift_traces", 0) + drift
+    ctx.cov["evaluations"] = ctx.cov.get("evaluations", 0) + len(rows)
+    ctx.cov["distinct_nontrivial"] = ctx.cov.get("distinct_nontrivial", 0) + len(rows)
+    ctx.cov["load_rows_by_table"] = {tab: sum(1 for row in rows if row["in"]["tab"] == tab)
+                                     for tab in sorted({row["in"]["tab"] for row in rows})}
+    ctx.cov.setdefault("ext_finding_rows", {}).update(finding_rows)
+    ctx.cov.setdefault("ext_findings_seen", [])
+    ctx.cov["ext_findings_seen"] += [fid for fid, _ in ext_seen]
+    ctx.cov.setdefault("violated_predicates", {}).update(preds)
+    for row in [r for r in rows if not r["exp"]["err"]["is"] and r["in"]["smtp"]][:1]:
+        o = ev_by_t[row["id"]]["out"]
+        ctx.cov["samples"].append({"row": {"text": row["text"], "documented": row["exp"]},
+                                   "out": {k: o.get(k) for k in LOAD_OUT_KEYS + ("msg", "code")}})
+    ctx.assumptions += [
+        "layer l: maddy's entry point (maddycli.Run with --config FILE run) runs in a child process of the harness binary; "
+        "READY=1 on its own sd_notify socket means the configuration was accepted; the configured variables are read from "
+        "the unexported fields of the real module objects by reflection (a renamed field is an infrastructure error); the "
+        "smtp endpoint listens on 127.0.0.1 port 0",
+    ]
+    for fid, what in ext_seen:
+        print("EXT-FINDING: ext=%s %s %s" % (PID, fid, what))
+
+
+def registry_verdicts(ctx, replay, binary):
+    rows, events, verdicts, accepted = run_registry(ctx, replay["row"] if replay else None, binary)
+    by_id = {row["id"]: row for row in rows}
+    ev_by_t = {e["t"]: e for e in events}
+    drift, preds = 0, {}
+    if replay:
+        ev = events[0]
+        v = verdicts.get(ev["t"])
+        print("REPLAY ext=X08 config (%%U = per-row prefix):\n%s" % rows[0].get("text", ""))
+        print("REPLAY ext=X08 real loader: %s" % json.dumps({k: ev["out"].get(k) for k in REG_OUT_KEYS + ("msg",)}))
+        print("REPLAY ext=X08 documented: %s" % json.dumps(rows[0].get("exp")))
+        print("REPLAY ext=X08 verdict of TLC: %s" % (
+            "violated=%s differs-from-documented-procedure=%s" % (sorted(v["viol"]), v["drift"]) if v
+            else "accepted as conforming"))
+    for t, v in sorted(verdicts.items()):
+        row, ev = by_id[t], ev_by_t[t]
+        outs = {k: ev["out"][k] for k in REG_OUT_KEYS}
+        outs["msg"] = ev["out"].get("msg", "")
+        if v["viol"]:
+            for p in v["viol"]:
+                preds[p] = preds.get(p, 0) + 1
+            what = ("module loading violates %s: text=%s out=%s documented=%s" % (
+                ",".join(sorted(v["viol"])), json.dumps(row["text"]), json.dumps(outs), json.dumps(row.get("exp"))))[:1200]
+            ctx.violation(what, {"property": PID, "layer": "r", "row": row, "out": ev["out"], "violated": sorted(v["viol"]),
+                                 "how": "bin/check X08 --replay <this file>"})
+        else:
+            drift += 1
+            if drift <= 10:
+                print(("DRIFT ext=X08 layer=r row=%d out=%s expected=%s text=%s" % (
+                    t, json.dumps(outs), json.dumps(row.get("exp")), json.dumps(row["text"])))[:1500])
+    ctx.cov["traces_validated_against_impl"] = ctx.cov.get("traces_validated_against_impl", 0) + accepted
+    ctx.cov["drift_traces"] = ctx.cov.get("drift_traces", 0) + drift
+    ctx.cov["evaluations"] = ctx.cov.get("evaluations", 0) + len(rows)
+    ctx.cov["distinct_nontrivial"] = ctx.cov.get("distinct_nontrivial", 0) + sum(
+        1 for row in rows if row["in"]["blocks"] or row["in"]["uses"])
+    ctx.cov["reg_rows_by_table"] = {tab: sum(1 for row in rows if row["in"]["tab"] == tab)
+                                    for tab in sorted({row["in"]["tab"] for row in rows})}
+    ctx.cov["reg_rows_accepted_by_rule"] = sum(1 for row in rows if not row.get("exp", {}).get("err", {}).get("is"))
+    ctx.cov.setdefault("violated_predicates", {}).update(preds)
+    for row in [r for r in rows if not r.get("exp", {}).get("err", {}).get("is") and len(r["in"]["uses"]) >= 2][:1] + \
+            [r for r in rows if r.get("exp", {}).get("err", {}).get("stage") == "unused"][:1]:
+        o = ev_by_t[row["id"]]["out"]
+        ctx.cov["samples"].append({"row": {"text": row["text"], "documented": row["exp"]},
+                                   "out": {k: o.get(k) for k in REG_OUT_KEYS + ("msg",)}})
+    ctx.assumptions += [
+        "layer r: %U in block names is replaced by a per-row prefix (maddy's instance registry is process-wide); the "
+        "steps of moduleMain between reading the file and waiting for signals are called one by one (ReadGlobals, "
+        "RegisterModules, initModules through go:linkname)",
+    ]
+
+
+def run(ctx, replay):
+    obj = json.load(open(replay)) if replay else None
+    layer = obj.get("layer", "m") if obj else None
+    if layer in (None, "r", "l"):
+        binary = build_loader(ctx)
+    if layer in (None, "l"):
+        loader_verdicts(ctx, obj, binary)
+    if layer in (None, "r"):
+        registry_verdicts(ctx, obj, binary)
+    if layer in (None, "m"):
+        run_map(ctx, obj)
+
+
 META = {
     "engine": "cfgmapcheck",
     "level": "model_checking",
-    "technique": "TLA+ spec CfgMap.tla (configuration text rendered by TLA+, property predicates, documented procedure, "
-                 "named deviations) enumerated by TLC; rows run through the real cfgparser and the real config.Map "
-                 "(global level as maddy.ReadGlobals, module block with the global Values); recorded outcomes evaluated "
-                 "by TLC (CfgMapTrace.tla)",
-    "statement": "TBD",
-    "text": "TBD",
-    "note": "TBD",
+    "technique": "TLA+ specs CfgMap.tla (config.Map), CfgMapReg.tla (module instances and references), CfgMapLoad.tla (real "
+                 "module blocks from the reference documentation): configuration texts rendered by TLA+, property predicates, "
+                 "documented procedure, named deviations, enumerated by TLC; every text goes through the real cfgparser and "
+                 "the real config.Map / ModuleFromNode / instance registry / maddy.ReadGlobals, RegisterModules, initModules "
+                 "(layers m, r) or through maddy's own entry point in a child process (layer l); recorded outcomes are "
+                 "evaluated by TLC (CfgMap*Trace.tla)",
+    "statement": "For every configuration block processed by framework/config.Map - every kind of registration (Bool, String, "
+                 "Int/UInt/Int32/UInt32/Int64/UInt64, Float, Duration, DataSize, Enum, EnumList, EnumMapped, EnumListMapped, "
+                 "StringList, Custom, Callback; inheritGlobal, required, default; AllowUnknown) and every block of directives "
+                 "(known, unknown and repeated names; no, one or several arguments: bool forms, numbers at and beyond the "
+                 "limits of their type, durations and data sizes with and without units, fractions, signs and overflow, enum "
+                 "values outside the set, empty strings; an empty or non-empty block where arguments are expected), at the "
+                 "global level and inside a module block - Process never panics and either returns an error that names the "
+                 "offending directive by file:line (for a missing required directive: the block and the directive's name), or "
+                 "sets every registered variable to exactly the documented value: the value written in the block if it is "
+                 "written once, else the global value if the directive inherits from the globals and the global directive is "
+                 "set, else the default (of the global directive or of the module's registration); nothing is silently "
+                 "ignored: an unknown directive is reported (or returned with AllowUnknown), a directive given twice is "
+                 "reported, a block where only arguments are expected is reported, a required directive set nowhere is "
+                 "reported, a callback directive is called once per occurrence in order; a block that follows the "
+                 "documentation is accepted.  For module references (docs/reference/modules.md): a configuration is refused "
+                 "iff it has a documented defect (unknown module, two blocks or aliases with one name, an undefined &name, a "
+                 "reference with extra arguments or a block, a module that does not implement what the directive needs, a "
+                 "directive the module does not know, no endpoint, a top-level block nothing refers to) and the error "
+                 "identifies it; in an accepted configuration &name (or an alias) is the one instance made for the block of "
+                 "that name, every inline definition is an instance of its own with its arguments and its block, every "
+                 "instance is initialised exactly once with its own directives and the inherited globals (hostname, debug).  "
+                 "For the documented blocks table.static, check.dkim and target.smtp loaded by maddy itself: every documented "
+                 "directive has the written value, else the global one, else the documented default.",
+    "text": "TLC enumerates the input tables of the three specifications, checks the property predicates on the documented "
+            "procedure for every row and evaluates the same predicates on what the real code returned for every row in both "
+            "tiers: error (level / stage, file:line, names mentioned), every registered variable, unknown nodes, callback "
+            "calls (layer m); objects made by the module factories, the object every referencing directive received, Init "
+            "counts and order, inherited values (layer r); exit status, message and the configured fields of the real module "
+            "objects after maddy reported READY (layer l).",
+    "note": "six deviations of the unchanged tree are open extension findings (extensions/findings.json): data size "
+            "overflow, concatenated duration arguments, zero with any unit, Map.Float ignoring a block, the default of "
+            "submission_timeout, named table.static blocks; tls / tls_client and the other real modules are not in the bound",
     "design_ref": "extensions/X08.md",
 }
